@@ -12,12 +12,12 @@ interface Node { id: ID! }
 type Tag { id: ID! label: String }
 type Post implements Node { id: ID! title: String tags(tagIds: [ID!]!, first: Int): [Tag!] privateMeta: Meta }
 type Meta { key: String value: String }
-type User implements Node { id: ID! userName: String posts(first: Int, orderBy: String): [Post!] bestFriend: User privateMeta: Meta
+type User implements Node { id: ID! userName: String posts(first: Int, orderBy: String): [Post!] comments(first: Int): [Post!] bestFriend: User privateMeta: Meta
   metaField(key: String!): String }
 type Bot implements Node { id: ID! model: String }
 union Actor = User | Bot
 type Query { findUser(id: ID): User user(id: ID!): User users(ids: [ID!]!, first: Int): [User!] me: User actor(id: ID!): Actor node(id: ID!): Node
-  findPost(key: ID!): Post post(key: ID): Post }
+  findPost(key: ID!): Post post(key: ID): Post matrix(rows: [[Int!]!]!, opt: [[ID]]): Int }
 type Mutation { rename(id: ID!, newName: String!): User }
 """
 
@@ -95,6 +95,14 @@ def run_cases():
         case("same-argument-list-different-nullability-1", lambda: [Q.find_user(id="1").fields(U.id), Q.user(id="2").fields(U.id)], ["1", "2"])
         case("same-argument-list-different-nullability-2", lambda: [Q.find_post(key="1").fields(P.id), Q.post().fields(P.id)], ["1"])
 
+        case("siblings-with-the-same-argument-name-under-an-argument-less-parent",
+             lambda: [Q.me().fields(U.posts(first=1).fields(P.id), U.comments(first=2).fields(P.id))], [1, 2],
+             extra=lambda p: [] if len(set(p["variables"])) == 2 else ["one variable for two arguments"])
+        case("nested-list-arguments", lambda: [Q.matrix(rows=[[1, 2], [3]], opt=[["a", None], None])], [[[1, 2], [3]], [["a", None], None]])
+        case("same-field-twice-under-different-aliases",
+             lambda: [Q.me().fields(U.meta_field(key="a").alias("x"), U.meta_field(key="b").alias("y"), U.posts(first=1).alias("p1").fields(P.id),
+                                    U.posts(first=2).alias("p2").fields(P.title))], ["a", "b", 1, 2],
+             extra=lambda p: [] if all(f"{a}:" in p["query"] for a in ("x", "y", "p1", "p2")) else ["an aliased selection is missing: " + p["query"].replace("\n", " ")])
         # falsy argument values are values: declared and transmitted (only None means "not given")
         case("falsy-int-argument", lambda: [Q.users(ids=["1"], first=0).fields(U.id)], [["1"], 0])
         case("empty-list-argument", lambda: [Q.users(ids=[]).fields(U.id)], [[]])
